@@ -15,6 +15,12 @@ pub enum Address {
 
 impl Address {
     pub(crate) async fn resolve(&self) -> std::io::Result<std::net::SocketAddr> {
+        // Literal socket addresses need no resolver thread; a verification harness that owns the
+        // schedule can ask for them to be resolved inline.
+        #[cfg(bmwill_anemo_verif)]
+        if let (Address::SocketAddr(addr), true) = (self, crate::verif::inline_resolve()) {
+            return Ok(*addr);
+        }
         let address = self.to_owned();
 
         tokio::task::spawn_blocking(move || address.resolve_blocking())
